@@ -332,6 +332,34 @@ Theorem C04_lv_pack_is_source : forall args clock,
 Proof. exact Src_refine.lv_pack_refines. Qed.
 Print Assumptions C04_lv_pack_is_source.
 
+(* TIE BY TRANSLATION: util.lv_unpack as it reads in /repo/src NOW (coq/Gen/Src_lv.v, regenerated by harness/py2v.py on
+   every run: the `while txt:` loop as recursion on explicit fuel, `l, v = txt.split(":", 1)`, int(l), v[:n], v[n:])
+   (DefaultToken.split_token: the decrypted plaintext of every opaque token goes through it).
+   For every text of at most 4300 characters and every fuel above its length the translated function computes the
+   model's lv_unpack - same list, same ValueError, Unmodelled exactly where the model is (a non-ASCII non-blank
+   character in a length prefix) - and the loop never runs out of fuel.  The bound is CPython's default limit on the
+   digits of an int() literal (run-time configurable, so not modelled: PyOps.py_int_of); beyond it the translation is
+   either outside that fragment or again the model (second theorem), and on everything lv_pack wrote - whatever the
+   length - it returns the packed list (third theorem; the side condition holds for every string a process can hold). *)
+From Verif Require Lib.PyOps Gen.Src_lv Proofs.Src_refine_lv.
+Theorem C04_lv_unpack_is_source : forall fuel txt clock,
+  (length txt < fuel)%nat -> (length txt <= PyOps.int_max_str_digits)%nat ->
+  Src_lv.lv_unpack_src fuel (VStr txt) clock = Src_refine_lv.inj_strs (lv_unpack txt) /\ lv_unpack txt <> Err OutOfFuel.
+Proof. exact Src_refine_lv.lv_unpack_refines. Qed.
+Print Assumptions C04_lv_unpack_is_source.
+Theorem C04_lv_unpack_is_source_any_length : forall fuel txt clock,
+  (length txt < fuel)%nat ->
+  Src_lv.lv_unpack_src fuel (VStr txt) clock = Unmodelled
+  \/ Src_lv.lv_unpack_src fuel (VStr txt) clock = Src_refine_lv.inj_strs (lv_unpack txt).
+Proof. exact Src_refine_lv.lv_unpack_refines_partial. Qed.
+Print Assumptions C04_lv_unpack_is_source_any_length.
+Theorem C04_lv_source_roundtrip : forall l fuel clock,
+  (length (lv_pack l) < fuel)%nat ->
+  List.Forall (fun a => length (str_of_nat (length a)) <= PyOps.int_max_str_digits)%nat l ->
+  Src_lv.lv_unpack_src fuel (VStr (lv_pack l)) clock = Ok (VList (List.map VStr l)) /\ lv_unpack (lv_pack l) = Ok l.
+Proof. exact Src_refine_lv.lv_unpack_src_roundtrip. Qed.
+Print Assumptions C04_lv_source_roundtrip.
+
 (* WHERE THE HANDLER KEYS COME FROM (Model/TokenFmt.v ksrc / ispec / iconstruct / ibuild_all).  ispec says for each opaque
    class handler and for the session manager whether the deployment gave the key (KsGiven k: crypt_conf with a key, or
    with a password AND a salt) or the library generates it (KsGen: the documented `"code": {"lifetime": 600}`,
@@ -432,3 +460,57 @@ Theorem C04_grouped_checker_is_pointwise : forall steps i j m re obs,
   igroup_model (steps, i, j, m, re, obs) = map (fun p => icross_model (steps, i, j, m, re, fst p, snd p, false)) igroup_slots.
 Proof. exact igroup_model_pointwise. Qed.
 Print Assumptions C04_grouped_checker_is_pointwise.
+
+(* --- round 11 --- *)
+(* ONE ACCEPTED STRING, TWO READERS (Model/TokenClaims.v, compared by harness/c04_claims.py with real providers whose access /
+   refresh slot has a JWT handler: every token handed out by code redemption, refresh, token exchange asked for by the
+   subject token's own client and by another client - down-scoped, audience-restricted, chained -, client_credentials).
+   The provider resolves a JWT-formatted token through the session id inside it; a resource server validates the
+   signature and reads client_id / sub / scope / aud.  grant_of p: the grant a minting path produces; payload_arguments:
+   the claims of a token minted in it (for an exchange grant the client is the EXCHANGE request's client). *)
+From Verif Require Model.TokenClaims Proofs.TokenClaims_proofs.
+(* for every minting path: the client and the subject a token's claims state are those of the session (branch of the
+   session database) the grant belongs to, the scope stated is the scope of the token on record *)
+Theorem C04_jwt_claims_name_the_session : forall p t,
+  (forall c, TokenClaims.c_client (TokenClaims.payload_arguments (TokenClaims.grant_of p) t) = Some c -> c = TokenClaims.g_client (TokenClaims.grant_of p)) /\
+  (forall s, TokenClaims.c_sub (TokenClaims.payload_arguments (TokenClaims.grant_of p) t) = Some s -> s = TokenClaims.g_sub (TokenClaims.grant_of p)) /\
+  TokenClaims.c_scope (TokenClaims.payload_arguments (TokenClaims.grant_of p) t) = TokenClaims.t_scope t.
+Proof. exact TokenClaims_proofs.claims_name_session. Qed.
+Print Assumptions C04_jwt_claims_name_the_session.
+(* the claims and the introspection answer about the same token agree on client_id, sub, scope, and on aud where the
+   claims state one *)
+Theorem C04_jwt_claims_agree_with_introspection : forall p t,
+  TokenClaims.claims_agree (TokenClaims.payload_arguments (TokenClaims.grant_of p) t) (TokenClaims.introspection_of (TokenClaims.grant_of p) t) = true.
+Proof. exact TokenClaims_proofs.claims_agree_with_introspection. Qed.
+Print Assumptions C04_jwt_claims_agree_with_introspection.
+(* an exchange asked for by another client makes a session of the same user and subject for THAT client *)
+Theorem C04_exchange_session_party : forall o b,
+  TokenClaims.g_user (TokenClaims.grant_of (TokenClaims.PExchange o b)) = TokenClaims.g_user (TokenClaims.grant_of o) /\
+  TokenClaims.g_sub (TokenClaims.grant_of (TokenClaims.PExchange o b)) = TokenClaims.g_sub (TokenClaims.grant_of o) /\
+  TokenClaims.g_client (TokenClaims.grant_of (TokenClaims.PExchange o b)) = b.
+Proof. exact TokenClaims_proofs.exchange_session_party. Qed.
+Print Assumptions C04_exchange_session_party.
+(* the accepted string: at whatever slot the provider's part of a JWT-formatted token (TokenFmt.mint) resolves to a session
+   on record, the claims signed with it name the client and subject of that very session and agree with what the
+   introspection endpoint states about it *)
+Theorem C04_accepted_jwt_claims_are_of_the_resolved_session : forall cfg expired (db : list (pystr * TokenClaims.gpath)) s c nonce rnd sid exp p t p',
+  assoc sid db = Some p ->
+  slot_session cfg expired db s (TokenClaims.j_tok (TokenClaims.mint_jwt cfg c nonce rnd sid exp p t)) = Some p' ->
+  let cl := TokenClaims.j_claims (TokenClaims.mint_jwt cfg c nonce rnd sid exp p t) in
+  (forall x, TokenClaims.c_client cl = Some x -> x = TokenClaims.g_client (TokenClaims.grant_of p')) /\
+  (forall x, TokenClaims.c_sub cl = Some x -> x = TokenClaims.g_sub (TokenClaims.grant_of p')) /\
+  TokenClaims.claims_agree cl (TokenClaims.introspection_of (TokenClaims.grant_of p') t) = true.
+Proof. exact TokenClaims_proofs.accepted_jwt_names_resolved_session. Qed.
+Print Assumptions C04_accepted_jwt_claims_are_of_the_resolved_session.
+(* refuted reading: a payload that names the client of the authorization request the grant CARRIES (an exchange grant
+   carries the request of the grant the subject token came from) misnames the tokens of every exchange session *)
+Theorem C04_claims_from_carried_request_misname :
+  let p := TokenClaims.PExchange (TokenClaims.PAuthz (PS "diana") (PS "client_1") (PS "sub-d")) (PS "client_2") in
+  let t := TokenClaims.mkTok [PS "openid"] [] in
+  TokenClaims.c_client (TokenClaims.payload_arguments_carried (TokenClaims.grant_of p) t) = Some (PS "client_1") /\
+  TokenClaims.g_client (TokenClaims.grant_of p) = PS "client_2" /\
+  TokenClaims.claims_agree (TokenClaims.payload_arguments_carried (TokenClaims.grant_of p) t) (TokenClaims.introspection_of (TokenClaims.grant_of p) t) = false /\
+  TokenClaims.c_client (TokenClaims.payload_arguments (TokenClaims.grant_of p) t) = Some (PS "client_2").
+Proof. exact TokenClaims_proofs.carried_request_misnames. Qed.
+Print Assumptions C04_claims_from_carried_request_misname.
+(* --- end round 11 --- *)
